@@ -119,6 +119,7 @@ VARIABLES cfg,        \* the Config, the source counts and the clock's drift
           refDone, peerDone,   \* the round's two goroutines have delivered
           refOff, peerOff,     \* what they delivered (after FaultTolerantMidpoint)
           refCorr, peerCorr,   \* refClkCorr / peerClkCorr after the clamps
+          refOk, peerOk,       \* refClkOk / peerClkOk: the side takes part in the switch
           corr,       \* argument of adj.Do
           ndo,        \* adj.Do calls since the last clk.Sleep returned
           adjLog,     \* history: every argument of adj.Do
@@ -126,10 +127,10 @@ VARIABLES cfg,        \* the Config, the source counts and the clock's drift
           hist        \* history: one record per completed round
 
 vars == <<cfg, phase, round, refSlots, peerSlots, refDone, peerDone, refOff, peerOff,
-          refCorr, peerCorr, corr, ndo, adjLog, cur, hist>>
+          refCorr, peerCorr, refOk, peerOk, corr, ndo, adjLog, cur, hist>>
 \* everything that determines the future (VIEW of the exhaustive configurations)
 View == <<cfg, phase, round, refSlots, peerSlots, refDone, peerDone, refOff, peerOff,
-          refCorr, peerCorr, corr, ndo>>
+          refCorr, peerCorr, refOk, peerOk, corr, ndo>>
 
 NoCur == [ref |-> << >>, rord |-> << >>, peer |-> << >>, pord |-> << >>]
 
@@ -139,6 +140,7 @@ Init ==
   /\ refSlots = << >> /\ peerSlots = << >>
   /\ refDone = FALSE /\ peerDone = FALSE
   /\ refOff = 0 /\ peerOff = 0 /\ refCorr = 0 /\ peerCorr = 0 /\ corr = 0
+  /\ refOk = FALSE /\ peerOk = FALSE
   /\ ndo = 0 /\ adjLog = << >> /\ cur = NoCur /\ hist = << >>
 
 \* Run's prologue: panics, or allocates the two slices (zero Measurements)
@@ -150,7 +152,7 @@ Boot ==
           /\ refSlots'  = [i \in 1 .. NSlots(cfg, "ref")  |-> 0]
           /\ peerSlots' = [i \in 1 .. NSlots(cfg, "peer") |-> 0]
   /\ UNCHANGED <<cfg, round, refDone, peerDone, refOff, peerOff, refCorr, peerCorr,
-                 corr, ndo, adjLog, cur, hist>>
+                 refOk, peerOk, corr, ndo, adjLog, cur, hist>>
 
 \* One of the round's two goroutines, from `go func()` to the channel send.
 \* The two share no data, so each is one atomic step and they may run in
@@ -168,7 +170,7 @@ MeasureRef ==
                /\ cur' = [cur EXCEPT !.ref = o, !.rord = ord]
   /\ refDone' = TRUE
   /\ UNCHANGED <<cfg, phase, round, peerSlots, peerDone, peerOff, refCorr, peerCorr,
-                 corr, ndo, adjLog, hist>>
+                 refOk, peerOk, corr, ndo, adjLog, hist>>
 
 MeasurePeer ==
   /\ phase = "measure" /\ ~peerDone
@@ -181,20 +183,22 @@ MeasurePeer ==
                /\ cur' = [cur EXCEPT !.peer = o, !.pord = ord]
   /\ peerDone' = TRUE
   /\ UNCHANGED <<cfg, phase, round, refSlots, refDone, refOff, refCorr, peerCorr,
-                 corr, ndo, adjLog, hist>>
+                 refOk, peerOk, corr, ndo, adjLog, hist>>
 
 \* refClkOff, peerClkOff := <-refClkOffCh, <-peerClkOffCh
 Receive ==
   /\ phase = "measure" /\ refDone /\ peerDone
   /\ phase' = "combine"
   /\ UNCHANGED <<cfg, round, refSlots, peerSlots, refDone, peerDone, refOff, peerOff,
-                 refCorr, peerCorr, corr, ndo, adjLog, cur, hist>>
+                 refCorr, peerCorr, refOk, peerOk, corr, ndo, adjLog, cur, hist>>
 
 \* clamps, cutoff test, switch
 Combine ==
   /\ phase = "combine"
   /\ refCorr'  = RefCorrOf(cfg, refOff)
   /\ peerCorr' = PeerCorrOf(cfg, peerOff)
+  /\ refOk'  = RefOkOf(cfg)
+  /\ peerOk' = PeerOkOf(cfg, peerOff)
   /\ corr' = CorrOf(cfg, refOff, peerOff)
   /\ phase' = "adjusting"
   /\ UNCHANGED <<cfg, round, refSlots, peerSlots, refDone, peerDone, refOff, peerOff,
@@ -207,7 +211,7 @@ Adjust ==
   /\ adjLog' = Append(adjLog, corr)
   /\ phase' = "adjusted"
   /\ UNCHANGED <<cfg, round, refSlots, peerSlots, refDone, peerDone, refOff, peerOff,
-                 refCorr, peerCorr, corr, cur, hist>>
+                 refCorr, peerCorr, refOk, peerOk, corr, cur, hist>>
 
 \* clk.Sleep(cfg.SyncInterval) is entered
 Sleep ==
@@ -219,7 +223,7 @@ Sleep ==
                            rc |-> refCorr, pc |-> peerCorr, corr |-> corr,
                            small |-> AllSmall(refSlots) /\ AllSmall(peerSlots)])
   /\ UNCHANGED <<cfg, refSlots, peerSlots, refDone, peerDone, refOff, peerOff,
-                 refCorr, peerCorr, corr, ndo, adjLog, cur>>
+                 refCorr, peerCorr, refOk, peerOk, corr, ndo, adjLog, cur>>
 
 \* clk.Sleep returns; next iteration of `for`
 Wake ==
@@ -229,6 +233,7 @@ Wake ==
   /\ ndo' = 0 /\ cur' = NoCur
   \* refClkOff, peerClkOff, refClkCorr, peerClkCorr, corr are locals of the loop body
   /\ refOff' = 0 /\ peerOff' = 0 /\ refCorr' = 0 /\ peerCorr' = 0 /\ corr' = 0
+  /\ refOk' = FALSE /\ peerOk' = FALSE
   /\ UNCHANGED <<cfg, round, refSlots, peerSlots, adjLog, hist>>
 
 Next == Boot \/ MeasureRef \/ MeasurePeer \/ Receive \/ Combine \/ Adjust \/ Sleep \/ Wake
@@ -240,25 +245,34 @@ Spec == Init /\ [][Next]_vars
 (* contributions, the correction handed to adj.Do and the Do/Sleep calls.  *)
 (***************************************************************************)
 Decided == phase \in {"adjusting", "adjusted", "asleep"}     \* corr has been computed
-RefContrib  == cfg.nref # 0
-PeerContrib == cfg.npeer # 0 /\ AbsD(peerOff) > cfg.cutoff   \* outside the cutoff
+\* The statement says "contributes" without saying when a side does, beyond
+\* "a peer offset within the cutoff contributes nothing".  The code decides it
+\* in refClkOk / peerClkOk (today: the side has sources, and for the peers the
+\* offset is beyond the cutoff) and logs both; a change that lets a side sit
+\* out a round in which none of its sources answered keeps every clause (a
+\* property-preserving patch of that kind was alarmed on while RefContrib was
+\* "cfg.nref # 0"), so contribution is what the switch used.
+RefContrib   == refOk
+PeerContrib  == peerOk
+WithinCutoff == AbsD(peerOff) <= cfg.cutoff
 
 \* |corr| <= impact factor x drift x interval (peer factor when the peer
 \* contributes, reference factor otherwise; the peer factor is the larger one)
 Bound == Decided =>
-  /\ 4 * AbsD(corr) <= (IF PeerContrib THEN PeerCap4(cfg) ELSE RefCap4(cfg))
+  /\ 4 * AbsD(corr) <= (IF PeerContrib /\ ~WithinCutoff THEN PeerCap4(cfg) ELSE RefCap4(cfg))
   /\ 4 * AbsD(corr) <= PeerCap4(cfg)
 RefPart  == (Decided /\ RefContrib)  => 4 * AbsD(refCorr)  <= RefCap4(cfg)
 PeerPart == (Decided /\ PeerContrib) => 4 * AbsD(peerCorr) <= PeerCap4(cfg)
-\* a peer offset within the cutoff (and a missing peer side) contributes nothing
+\* a peer offset within the cutoff contributes nothing, whatever the flag says
+\* (and so does a peer side that sits out)
 WithinCutoffContributesNothing ==
-  (Decided /\ ~PeerContrib) => corr = (IF RefContrib THEN refCorr ELSE 0)
+  (Decided /\ (WithinCutoff \/ ~PeerContrib)) => corr = (IF RefContrib THEN refCorr ELSE 0)
 SoleContribution ==
-  (Decided /\ PeerContrib /\ ~RefContrib) => corr = peerCorr
+  (Decided /\ PeerContrib /\ ~WithinCutoff /\ ~RefContrib) => corr = peerCorr
 \* the statement does not fix the rounding of an odd sum
 IsMidpoint(m, x, y) == 2 * m - (x + y) \in {-1, 0, 1}
 MidpointWhenBoth ==
-  (Decided /\ RefContrib /\ PeerContrib) => IsMidpoint(corr, refCorr, peerCorr)
+  (Decided /\ RefContrib /\ PeerContrib /\ ~WithinCutoff) => IsMidpoint(corr, refCorr, peerCorr)
 
 \* exactly one Do call between consecutive Sleep calls
 OneAdjust ==
